@@ -53,6 +53,8 @@ def operand_replay_spec(o, values_from_model):
         b = bool(values_from_model.get(o.label, False))
         return ["cmp", "!=", ["var", a, [False, 8]], ["var", z, [False, 8]]], {a: 1 if b else 0, z: 0}
     t = o.ghost["ctype"]
+    if kind == "CastOfNumber":
+        return ["cast", [t[0], t[1]], ["num", int(values_from_model.get(o.label + "_lit", 0)), [True, 32]]], {}
     return ["var", o.label, [t[0], t[1]]], {o.label: int(values_from_model.get(o.label, 0))}
 
 
